@@ -55,6 +55,23 @@ def nodata_for(dtype, kind):
 
 
 def make_data(full_shape, dtype, noisy=False):
+    if noisy == "extreme":
+        # the ramp with the extreme values of the type written over a few pixels (first, second row, middle, last):
+        # statistics, predictors and header fields sized from "typical" values meet the largest ones
+        a = make_data(full_shape, dtype, False)
+        dt = np.dtype(dtype)
+        if dt.kind == "f":
+            fi = np.finfo(dt)
+            ext = [fi.max, -fi.max, fi.tiny, -0.0, 1e20 if dt.itemsize > 4 else 1e20, 9.97e36, -1e17, 1e-30]
+        else:
+            ii = np.iinfo(dt)
+            ext = [ii.max, ii.min, ii.max - 1, ii.min + 1, 0, 1]
+        flat = a.reshape(-1)
+        pos = [0, 1, min(len(flat) - 1, full_shape[-1] + 1), len(flat) // 2, len(flat) // 2 + 1, len(flat) - 2, len(flat) - 1]
+        for i, ps in enumerate(pos):
+            if 0 <= ps < len(flat):
+                flat[ps] = np.array(ext[i % len(ext)]).astype(dt)
+        return flat.reshape(full_shape)
     n = int(np.prod(full_shape))
     dt = np.dtype(dtype)
     if noisy:
@@ -291,7 +308,15 @@ def write_and_inspect(case_desc, yx, layout, dtype, ndkind, blocksize, src_chunk
             leftovers += os.listdir(kw["parts_base"])
         if leftovers:
             r.fail(f"write:leftovers:{cls}", f"{case_desc}: {leftovers}")
-        inspect(path, data, layout, gbox, nodata, blocksize, r, case_desc, cls)
+        try:
+            inspect(path, data, layout, gbox, nodata, blocksize, r, case_desc, cls)
+        except Exception as e:  # pylint: disable=broad-except
+            # a file the independent readers refuse to open or decode is a violation of "produces a valid GeoTIFF", not
+            # a harness error; anything else raised by the oracle code itself still is one
+            mod = type(e).__module__ or ""
+            if not (mod.split(".")[0] in ("rasterio", "tifffile", "imagecodecs", "zlib", "struct", "zstd", "lzma") or isinstance(e, OSError)):
+                raise
+            r.fail(f"decode:reader-raised:{type(e).__name__}:{cls}", f"{case_desc}: {type(e).__name__}: {str(e)[:300]}")
     finally:
         shutil.rmtree(td, ignore_errors=True)
 
@@ -332,15 +357,33 @@ def run_s1(case):
 def gen_s2(tier):
     def g():
         for dtype in ("uint8", "int8", "int16", "uint16", "int32", "float32", "float64"):
-            for comp in ("deflate", "zstd", "lzw", "none"):
+            # every lossless codec that both tifffile and this GDAL build handle, two of them in another spelling
+            for comp in ("deflate", "zstd", "lzw", "none", "packbits", "lzma", "adobe_deflate", "lerc", "lerc_deflate", "lerc_zstd",
+                         "DEFLATE", "Zstd"):
                 for pred in ("auto", "off"):
                     for ndk in ("none", "zero", "nodata"):
                         yield ("s2", dtype, comp, pred, ndk)
+        # extreme pixel values (type limits, huge/tiny floats) with statistics on (the default) and off
+        for dtype in ("uint8", "int8", "int16", "uint16", "int32", "float32", "float64"):
+            for comp in ("deflate", "zstd", "none"):
+                for stats in ("default", "off"):
+                    yield ("s2x", dtype, comp, stats, "none" if stats == "default" else "nodata")
 
     return g
 
 
 def run_s2(case):
+    if case[0] == "s2x":
+        _, dtype, comp, stats, ndk = case
+        r = R(outcome=f"s2x:{comp}:stats-{stats}:{np.dtype(dtype).kind}{np.dtype(dtype).itemsize}")
+        kw = dict(compression=comp, _noisy="extreme")
+        if stats == "off":
+            kw["stats"] = False
+        write_and_inspect(str(case), (37, 50), "YX", dtype, ndk, [16], (16, 16), r, f"{dtype}:{comp}:extreme-values:stats-{stats}", **kw)
+        if dtype in ("int16", "float32"):
+            write_and_inspect(str(case) + "+SYX2", (20, 37), ("SYX", 2), dtype, ndk, [16], (16, 16), r,
+                              f"{dtype}:{comp}:extreme-values:stats-{stats}:syx", **kw)
+        return r
     _, dtype, comp, pred, ndk = case
     r = R(outcome=f"s2:{comp}:{pred}:{np.dtype(dtype).kind}{np.dtype(dtype).itemsize}")
     kw = dict(compression=comp)
